@@ -594,6 +594,36 @@ fn main() {
             }
         }
     }
+    // rows whose DATA contains the byte pair FF FF (the value of the trailer) at every byte offset of a field:
+    // a loader that recognises the end of the table by value, or strips a trailing FF FF before splitting
+    // the body into rows, takes a cut right after such a pair for the end of a complete table
+    for s in [Street::Flop, Street::Turn] {
+        let mut m = BTreeMap::new();
+        let mut k = 0u32;
+        while m.len() < 12 {
+            let sh = 8 * (k % 6);
+            let noise = c.rng.next() >> 8;
+            let code = (street_index(s) << 56) | (((noise & !(0xFFFFu64 << sh)) | (0xFFFFu64 << sh)) & ((1u64 << 56) - 1));
+            m.insert(any_isomorphism(&mut c.rng, s), Abstraction::from(code));
+            k += 1;
+        }
+        lookup_case(&mut c, &m);
+        c.run.count("lookup-rows-containing-FFFF");
+    }
+    {
+        let mut rows: BTreeMap<u64, u32> = BTreeMap::new();
+        let mut k = 0u32;
+        while rows.len() < 12 {
+            let sh = 8 * (k % 7);
+            let key = (c.rng.next() & !(0xFFFFu64 << sh)) | (0xFFFFu64 << sh);
+            // 0x3F7FFFFF = 0.99999994, 0x3EFFFF00: finite values whose bytes contain FF FF
+            rows.insert(key, if k % 2 == 0 { 0x3F7F_FFFF } else { 0x3EFF_FF00 });
+            k += 1;
+        }
+        let rows: Vec<(u64, u32)> = rows.into_iter().collect();
+        metric_case(&mut c, &rows);
+        c.run.count("metric-rows-containing-FFFF");
+    }
     decomp_case(&mut c, BTreeMap::new());
     for s in [Street::Pref, Street::Flop, Street::Turn] {
         for n in [1usize, 2, 5] {
